@@ -1,4 +1,4 @@
-import json, os
+import json, os, re
 
 from vlib import *
 
@@ -50,6 +50,9 @@ class C09(Check):
     EXTRA_TRUSTED = [
         "harness/cmd/extract-c09 (go/ast site-table extractor) and harness/internal/proxydb (OnCommit handlers are run by the "
         "proxy after the real commit, in bbolt's order)",
+        "lib/extract_c09.py: a site whose locking shape the go/ast reader does not recognise gets its `held` flag from a "
+        "behavioural probe of the built code (gated two-request scenario, several partners and repetitions, scope 84 / "
+        "account 0 / imported account only); evidence fields facts_source / facts_source_per_site say which path ran",
     ]
 
     def gen_args(self, tier, seed):
@@ -128,7 +131,19 @@ Print bad.
         in_window = sum(1 for c in cases if any(x["blocked"] for x in c["obs"]["calls"]))
         gated = sum(1 for c in cases if any(x["gate"] for x in c["in"]["calls"]))
         notes = sum(1 for c in cases if c["obs"]["notes"])
+        # which path of lib/extract_c09.py produced the per-site `held` flags of this run
+        src, per_site = "unknown", {}
+        try:
+            txt = open(os.path.join(COQ, "Generated", "AddrSites.v")).read()
+            m = re.search(r"\(\* facts source: (\w+)", txt)
+            if m:
+                src = m.group(1)
+            for m in re.finditer(r'site_name := "([^"]+)".*?held := (\w+); held_from := "(\w+)"', txt, re.S):
+                per_site[m.group(1)] = dict(held=m.group(2) == "true", source=m.group(3))
+        except OSError:
+            pass
         return dict(
+            facts_source=src, facts_source_per_site=per_site,
             scenarios_with_gate=gated,
             scenarios_where_a_request_waited_for_the_mutex_while_another_sat_between_commit_and_handlers=in_window,
             scenarios_with_harness_notes=notes,
